@@ -47,10 +47,31 @@ type recProxy struct {
 	target string
 	srv    *http.Server
 	bad    []string
+	// fault injection (C08 over the wire): what to do with the n-th request of a kind
+	dataFault, recFault, pollFault map[int]string
+	cutAt                          map[int]int
+	nrec, npoll, seq               int
+	events                         []wireEvent
+}
+
+// wireEvent: one request as the sender and the receiver saw it
+type wireEvent struct {
+	kind       string // data | recover | poll
+	fault      string
+	parts      []partMeta
+	arrived    int // sequence number when the request reached the proxy
+	answered   int // sequence number when the sender got its answer
+	toldN      int // number of leading parts the answer told the sender are on record (-1: nothing told)
+	serverCode int
+	serverN    int
 }
 
 func (p *recProxy) ServeHTTP(w http.ResponseWriter, r *http.Request) {
 	body, _ := io.ReadAll(r.Body)
+	if p.dataFault != nil {
+		p.serveFaulty(w, r, body)
+		return
+	}
 	if r.Method == "PUT" && r.URL.Path == "/data" {
 		raw := body
 		if r.Header.Get("Content-Encoding") == "gzip" {
@@ -93,6 +114,106 @@ func (p *recProxy) ServeHTTP(w http.ResponseWriter, r *http.Request) {
 	}
 	w.WriteHeader(resp.StatusCode)
 	io.Copy(w, resp.Body)
+}
+
+func (p *recProxy) forward(r *http.Request, body []byte) (*http.Response, []byte, error) {
+	req, err := http.NewRequest(r.Method, "http://"+p.target+r.URL.RequestURI(), bytes.NewReader(body))
+	if err != nil {
+		return nil, nil, err
+	}
+	for k, v := range r.Header {
+		req.Header[k] = v
+	}
+	req.ContentLength = int64(len(body))
+	cl := &http.Client{Timeout: 20 * time.Second, Transport: &http.Transport{DisableKeepAlives: true, DisableCompression: true}}
+	resp, err := cl.Do(req)
+	if err != nil {
+		return nil, nil, err
+	}
+	defer resp.Body.Close()
+	b, _ := io.ReadAll(resp.Body)
+	return resp, b, nil
+}
+
+func relay(w http.ResponseWriter, resp *http.Response, b []byte) {
+	for k, v := range resp.Header {
+		w.Header()[k] = v
+	}
+	w.WriteHeader(resp.StatusCode)
+	w.Write(b)
+}
+
+// serveFaulty: the proxy as an unreliable network. refuse = the receiver never sees the request;
+// lost = the receiver processes it, the sender gets an error; cut = the receiver sees the request
+// body end early (and answers partial content, which is passed on).
+func (p *recProxy) serveFaulty(w http.ResponseWriter, r *http.Request, body []byte) {
+	ev := wireEvent{toldN: -1}
+	p.mu.Lock()
+	p.seq++
+	ev.arrived = p.seq
+	switch {
+	case r.Method == "PUT" && r.URL.Path == "/data":
+		p.nreq++
+		ev.kind, ev.fault = "data", p.dataFault[p.nreq]
+		if n, _ := strconv.Atoi(r.Header.Get("X-STS-MetaLen")); n > 0 && n <= len(body) {
+			json.Unmarshal(body[:n], &ev.parts)
+			if ev.fault == "cut" {
+				dl := len(body) - n
+				if dl > 0 {
+					body = body[:n+p.cutAt[p.nreq]%dl]
+				} else {
+					ev.fault = ""
+				}
+			}
+		} else {
+			p.bad = append(p.bad, "unreadable data request")
+		}
+	case r.Method == "PUT" && r.URL.Path == "/data-recovery":
+		p.nrec++
+		ev.kind, ev.fault = "recover", p.recFault[p.nrec]
+		json.Unmarshal(body, &ev.parts)
+	case r.URL.Path == "/validate":
+		p.npoll++
+		ev.kind, ev.fault = "poll", p.pollFault[p.npoll]
+	default:
+		ev.kind = "other"
+	}
+	p.mu.Unlock()
+	finish := func() {
+		p.mu.Lock()
+		p.seq++
+		ev.answered = p.seq
+		p.events = append(p.events, ev)
+		p.mu.Unlock()
+	}
+	if ev.fault == "refuse" {
+		finish()
+		w.WriteHeader(503)
+		return
+	}
+	resp, b, err := p.forward(r, body)
+	if err != nil {
+		finish()
+		w.WriteHeader(502)
+		return
+	}
+	ev.serverCode = resp.StatusCode
+	ev.serverN, _ = strconv.Atoi(resp.Header.Get("X-STS-PartCount"))
+	if ev.fault == "lost" {
+		finish()
+		w.WriteHeader(502)
+		return
+	}
+	switch {
+	case ev.kind == "data" && resp.StatusCode == 200:
+		ev.toldN = len(ev.parts)
+	case ev.kind == "data" && resp.StatusCode == 206:
+		ev.toldN = ev.serverN
+	case ev.kind == "recover" && resp.StatusCode == 200:
+		ev.toldN = ev.serverN
+	}
+	finish()
+	relay(w, resp, b)
 }
 
 func startProxy(port int, target string) (*recProxy, error) {
@@ -300,11 +421,11 @@ func propTagsRun(t *vt.T) {
 	go func() { done <- cmd.Wait() }()
 	select {
 	case <-done:
-	case <-time.After(90 * time.Second):
+	case <-time.After(45 * time.Second):
 		cmd.Process.Kill()
 		<-done
 		t.Class("sender-timeout")
-		t.Skip("the one-shot sender did not exit within 90 s (inconclusive here; stops are C16's subject)")
+		t.Skip("the one-shot sender did not exit within 45 s (inconclusive here; stops are C16's subject)")
 	}
 	s.settle()
 	proxy.mu.Lock()
@@ -444,3 +565,170 @@ func tail(s string, n int) string {
 }
 
 func TestC19Run(t *testing.T) { vt.Check(t, "C19", propTagsRun) }
+
+// ---------------------------------------------------------------------------
+// C08 over the wire: the real sender (its own HTTP client: 206 / part-count handling, the
+// recovery request) against the real receiver, with the proxy failing requests.
+
+func propWireFaults(t *vt.T) {
+	bin := os.Getenv("VT_STS_BIN")
+	s := startServer(t, nil, nil)
+	defer s.stop()
+	proxy, err := startProxy(s.port+2, fmt.Sprintf("127.0.0.1:%d", s.port))
+	if err != nil {
+		t.Skip("proxy: " + err.Error())
+	}
+	defer func() {
+		ctx, cancel := context.WithTimeout(context.Background(), time.Second)
+		proxy.srv.Shutdown(ctx)
+		cancel()
+	}()
+	proxy.dataFault, proxy.recFault, proxy.pollFault, proxy.cutAt = map[int]string{}, map[int]string{}, map[int]string{}, map[int]int{}
+	kinds := []string{"", "refuse", "lost", "cut"}
+	nfaulty := 0
+	for i := 1; i <= 8; i++ {
+		k := kinds[t.Weighted("dataFault", 5, 2, 3, 3)]
+		if k != "" {
+			proxy.dataFault[i] = k
+			nfaulty++
+			t.Class("wire-fault-" + k)
+		}
+		proxy.cutAt[i] = t.IntRange("cutAt", 0, 5000)
+	}
+	for i := 1; i <= 4; i++ {
+		if t.Weighted("recoveryFault", 3, 1) == 1 {
+			proxy.recFault[i] = "refuse"
+			t.Class("recovery-request-refused")
+		}
+		if t.Weighted("pollFault", 5, 1) == 1 {
+			proxy.pollFault[i] = "refuse"
+		}
+	}
+	type srcF struct {
+		name string
+		data []byte
+	}
+	var files []srcF
+	nf := t.IntRange("nFiles", 1, 6)
+	base := time.Now().Add(-2 * time.Hour).Truncate(time.Second)
+	home := filepath.Join(s.sandbox, "area", "send")
+	out := filepath.Join(home, "data", "out", "recv1")
+	for i := 0; i < nf; i++ {
+		size := []int{1, 40, 700, 2500, 6000}[t.Pick("size", 5)]
+		data := make([]byte, size)
+		for j := range data {
+			data[j] = byte('a' + (i*11+j*5+j/26)%26)
+		}
+		name := fmt.Sprintf("%s/f%d.dat", []string{"ga", "gb"}[t.Pick("group", 2)], i)
+		files = append(files, srcF{name, data})
+		p := filepath.Join(out, name)
+		os.MkdirAll(filepath.Dir(p), 0755)
+		os.WriteFile(p, data, 0644)
+		tm := base.Add(time.Duration(i*20) * time.Second)
+		os.Chtimes(p, tm, tm)
+	}
+	binSize := []string{"300B", "1KB", "4KB"}[t.Pick("binSize", 3)]
+	threads := t.IntRange("threads", 1, 3)
+	var conf strings.Builder
+	fmt.Fprintf(&conf, "OUT:\n  dirs:\n    cache: .sts/out\n    logs: data/log\n    out: data/out\n  sources:\n    - name: src1\n      threads: %d\n      scan-delay: 1s\n      cache-age: 5m\n      min-age: 0s\n"+
+		"      bin-size: %s\n      compress: 0\n      poll-delay: 100ms\n      poll-interval: 300ms\n      poll-attempts: 30\n      error-backoff: 0.1\n"+
+		"      target:\n        name: recv1\n        http-host: 127.0.0.1:%d\n      tags:\n        - pattern: DEFAULT\n          order: fifo\n          delete: false\n          method: http\n", threads, binSize, s.port+2)
+	os.MkdirAll(filepath.Join(home, "conf"), 0755)
+	confPath := filepath.Join(home, "conf", "sts.out.yaml")
+	os.WriteFile(confPath, []byte(conf.String()), 0644)
+	t.Note("threads=%d bin-size=%s data faults=%v cut positions=%v recovery faults=%v poll faults=%v", threads, binSize, proxy.dataFault, proxy.cutAt, proxy.recFault, proxy.pollFault)
+	var slog bytes.Buffer
+	cmd := exec.Command(bin, "-mode", "out", "-root", home, "-conf", confPath)
+	cmd.Stdout, cmd.Stderr, cmd.Dir = &slog, &slog, home
+	cmd.SysProcAttr = &syscall.SysProcAttr{Pdeathsig: syscall.SIGKILL}
+	if err := cmd.Start(); err != nil {
+		t.Skip("sender start: " + err.Error())
+	}
+	done := make(chan error, 1)
+	go func() { done <- cmd.Wait() }()
+	select {
+	case <-done:
+	case <-time.After(45 * time.Second):
+		cmd.Process.Kill()
+		<-done
+		t.Class("sender-timeout")
+		t.Skip("the one-shot sender did not exit within 45 s (inconclusive here)")
+	}
+	s.settle()
+	proxy.mu.Lock()
+	events := append([]wireEvent{}, proxy.events...)
+	bad := append([]string{}, proxy.bad...)
+	proxy.mu.Unlock()
+	if len(bad) > 0 {
+		t.Skip("proxy could not read a request: " + bad[0])
+	}
+	sort.Slice(events, func(i, j int) bool { return events[i].arrived < events[j].arrived })
+	hit := 0
+	for _, e := range events {
+		var ds []string
+		for _, p := range e.parts {
+			ds = append(ds, fmt.Sprintf("%s[%d,%d)", p.Name, p.Beg, p.End))
+		}
+		if e.kind == "data" || e.kind == "recover" {
+			t.Note("#%d %s %v fault=%q receiver: %d n=%d; sender told: %d", e.arrived, e.kind, ds, e.fault, e.serverCode, e.serverN, e.toldN)
+		}
+		if e.fault != "" && e.kind == "data" && len(e.parts) > 1 {
+			hit++
+		}
+	}
+	if hit > 0 {
+		t.NonTrivial()
+		t.Class("fault-on-multi-part-request")
+	}
+	// (1) nothing skipped or abandoned
+	for _, f := range files {
+		got, rerr := os.ReadFile(filepath.Join(s.home, "data", "in", "src1", f.name))
+		if rerr != nil || !bytes.Equal(got, f.data) {
+			t.Violation("not-delivered-after-wire-faults", "%s was not delivered byte-identical by the one-shot run (%v, %d of %d bytes); sender log tail: %s", f.name, rerr, len(got), len(f.data), tail(slog.String(), 500))
+		}
+	}
+	// (2) what the sender was told is on record is not transmitted again
+	type told struct {
+		name     string
+		beg, end int64
+		at       int
+	}
+	var tolds []told
+	for _, e := range events {
+		for i := 0; i < e.toldN && i < len(e.parts); i++ {
+			tolds = append(tolds, told{e.parts[i].Name, e.parts[i].Beg, e.parts[i].End, e.answered})
+		}
+	}
+	for _, e := range events {
+		if e.kind != "data" {
+			continue
+		}
+		for _, p := range e.parts {
+			for _, k := range tolds {
+				if k.at < e.arrived && k.name == p.Name && p.Beg < k.end && k.beg < p.End {
+					t.Violation("acknowledged-part-sent-again-on-the-wire", "request #%d transmits %s[%d,%d) although the sender had been told at #%d that [%d,%d) of it is on the receiver's record", e.arrived, p.Name, p.Beg, p.End, k.at, k.beg, k.end)
+				}
+			}
+		}
+	}
+	// (3) one sent-log record per file
+	cnt := map[string]int{}
+	filepath.Walk(filepath.Join(home, "data", "log", "outgoing_to"), func(p string, info os.FileInfo, err error) error {
+		if err == nil && !info.IsDir() {
+			b, _ := os.ReadFile(p)
+			for _, ln := range strings.Split(string(b), "\n") {
+				if f := strings.SplitN(ln, ":", 2); len(f) == 2 {
+					cnt[f[0]]++
+				}
+			}
+		}
+		return nil
+	})
+	for _, f := range files {
+		if cnt[f.name] != 1 {
+			t.Violation("sent-log-records", "%s has %d records in the sender's sent log after a run without validation failures (all: %v)", f.name, cnt[f.name], cnt)
+		}
+	}
+}
+
+func TestC08Wire(t *testing.T) { vt.Check(t, "C08", propWireFaults) }
